@@ -752,6 +752,13 @@ func (c *cluster) crosses(m pb.Message) bool {
 
 func (c *cluster) takeMsg(i int, keep bool) pb.Message {
 	m := c.msgs[i].m
+	// a message must not change between the moment raft hands it over and the
+	// moment the transport serialises it: its entry slices alias raft's
+	// in-memory log, which must never be overwritten in place
+	if !bytes.Equal(msgKey(m), c.msgs[i].key) {
+		c.fail("C02: a queued %s message from %d to %d changed after raft emitted it (its entries alias memory that raft overwrote)",
+			m.Type, m.From, m.To)
+	}
 	if !keep {
 		c.msgs = append(c.msgs[:i], c.msgs[i+1:]...)
 	}
